@@ -284,6 +284,20 @@ func (c *Ctx) PushBackDiscipline(ob *core.Obligation, r *Roles) {
 					continue
 				}
 				f := core.FieldOf(st.Addr)
+				if f == r.SenderName || f == r.ReceiverName {
+					// whoever is pushed back keeps its own name
+					who := "sender"
+					if f == r.ReceiverName {
+						who = "receiver"
+					}
+					key := "pushback:" + core.SSAName(fn) + ":" + who + ":name"
+					if postingFieldOf(st.Val) == f {
+						ob.Pass(key, c.P.Pos(st.Pos()), "a pushed-back "+who+" keeps the name of the "+who+" that was popped")
+					} else {
+						ob.Fail(key, c.P.Pos(st.Pos()), "the remainder pushed back as a "+who+" does not carry the name of the "+who+" it is the rest of ("+core.ShortVal(st.Val)+"): the rest would be attributed to another account")
+					}
+					continue
+				}
 				if f != r.SenderAmt && f != r.ReceiverAmt {
 					continue
 				}
